@@ -199,7 +199,16 @@ func (in IN) Build(builder Builder) {
 
 	switch len(in.Values) {
 	case 0:
-		builder.WriteString(" IN (NULL)")
+		if columns, ok := in.Column.([]Column); ok && len(columns) > 1 {
+			// a row value has to be compared with row values of the same size
+			builder.WriteString(" IN ((NULL")
+			for i := 1; i < len(columns); i++ {
+				builder.WriteString(",NULL")
+			}
+			builder.WriteString("))")
+		} else {
+			builder.WriteString(" IN (NULL)")
+		}
 	case 1:
 		if _, ok := in.Values[0].([]interface{}); !ok {
 			builder.WriteString(" = ")
